@@ -28,6 +28,11 @@ PROPS = {
             "vSwitch CIDR - except in the 'incomplete record' class (1 world in 8: one family's CIDR empty or too small for the reserved gateway), "
             "where handing out no configuration is accepted; Status.ENIInfos has an entry per allocation, interface names are distinct; "
             "default-route flags and the presence of a primary interface are NOT assumed (the daemon must refuse bad combinations)",
+            "CRD worlds: 1 in 6 has an incomplete ENI record in the Node CR (ipv4CIDR/ipv6CIDR empty - e.g. recorded before the vSwitch got IPv6 - "
+            "or malformed), usually on the ENI the pod is bound to: no configuration (error or empty reply) is accepted there, a carried family "
+            "must come with subnet and gateway. Too-small subnets (/31,/32,/127,/128) are NOT generated for Node CR records: a vSwitch is at "
+            "least /29 and /64 and the controller copies it from the cloud (on such a record the unchanged daemon returns address + subnet "
+            "without a gateway)",
             "CRD worlds: the pod's current binding (PodID + current PodUID) is one slot of one ENI; other slots may be held by other pods or, "
             "Valid, by an earlier incarnation of the same namespace/name with a different non-empty PodUID (recreated pod); each such world "
             "repeats the request 6 times because the daemon ranges over Go maps",
